@@ -947,6 +947,9 @@ func genOneOnOne(r *rand.Rand, id string, size int, total int) []string {
 	} else {
 		g.add("tone %d %d %s %s", a, b, pay(), pay())
 	}
+	if g.pick(3) == 0 && !strings.Contains(g.lines[len(g.lines)-1], " conc") {
+		g.lines[len(g.lines)-1] += " twoctx"
+	}
 	if g.pick(2) == 0 {
 		// a third peer publishes on the pairwise topic
 		g.lines[len(g.lines)-1] += " third=" + hx(g.value())
